@@ -85,9 +85,10 @@ func (store *Store) pathForKey(key string) string {
 
 // Has implements go-ipld-prime/storage.Storage.Has.
 func (store *Store) Has(ctx context.Context, key string) (bool, error) {
-	_, err := os.Stat(store.pathForKey(key))
+	fi, err := os.Stat(store.pathForKey(key))
 	if err == nil {
-		return true, nil
+		// A directory is never a stored block (the empty key maps onto a shard directory).
+		return !fi.IsDir(), nil
 	}
 	if os.IsNotExist(err) {
 		return false, nil
